@@ -12,6 +12,7 @@ import (
 	"context"
 	"encoding/pem"
 	"fmt"
+	"google.golang.org/protobuf/reflect/protoreflect"
 
 	"github.com/google/gce-tcb-verifier/cmd/output"
 	"github.com/google/gce-tcb-verifier/gcetcbendorsement"
@@ -95,6 +96,35 @@ func unrelated(p *cpb.Policy) *cpb.Policy {
 	c := proto.Clone(p).(*cpb.Policy)
 	c.Policy, c.Measurement, c.TrustedIdKeys, c.TrustedAuthorKeys = 0, nil, nil, nil
 	return c
+}
+
+// scribble overwrites, in place, every byte of every bytes field reachable from m.
+func scribble(m protoreflect.Message) {
+	m.Range(func(fd protoreflect.FieldDescriptor, v protoreflect.Value) bool {
+		switch {
+		case fd.IsList():
+			l := v.List()
+			for i := 0; i < l.Len(); i++ {
+				if fd.Kind() == protoreflect.BytesKind {
+					b := l.Get(i).Bytes()
+					for j := range b {
+						b[j] ^= 0xff
+					}
+				} else if fd.Message() != nil {
+					scribble(l.Get(i).Message())
+				}
+			}
+		case fd.IsMap():
+		case fd.Kind() == protoreflect.BytesKind:
+			b := v.Bytes()
+			for j := range b {
+				b[j] ^= 0xff
+			}
+		case fd.Message() != nil:
+			scribble(v.Message())
+		}
+		return true
+	})
 }
 
 func eqKeys(a, b [][]byte) bool {
@@ -194,8 +224,11 @@ func sevCase(r *mc.Run, ctx context.Context, id string, end *epb.VMLaunchEndorse
 	}
 	// Values placed in the result are the endorsement's.
 	if n != 0 {
-		if !bytes.Equal(got.Measurement, snp.Measurements[n]) || len(snp.Measurements[n]) == 0 {
-			viol("measurement-not-endorsed", fmt.Sprintf("result measurement is not the one endorsed for %d VMSAs", n))
+		// a set base measurement may survive (without overwrite it must); anything else in the
+		// result has to be the measurement endorsed for the named count
+		keptBase := len(eff.Measurement) != 0 && bytes.Equal(got.Measurement, eff.Measurement)
+		if !keptBase && (!bytes.Equal(got.Measurement, snp.Measurements[n]) || len(snp.Measurements[n]) == 0) {
+			viol("measurement-not-endorsed", fmt.Sprintf("result measurement is neither the base's nor the one endorsed for %d VMSAs", n))
 		}
 	} else {
 		if !au {
@@ -232,6 +265,14 @@ func sevCase(r *mc.Run, ctx context.Context, id string, end *epb.VMLaunchEndorse
 	}
 	if base == nil || !proto.Equal(got, base) {
 		r.Nontrivial(id)
+	}
+	// "returns a new policy": nothing in the result may share memory with the base. Scribble over
+	// every byte slice of the result and look at the base again.
+	if base != nil {
+		scribble(got.ProtoReflect())
+		if !proto.Equal(base, snapshot) {
+			viol("result-shares-memory-with-base", "writing into the returned policy changed the caller's base policy")
+		}
 	}
 	r.Outcome("ok")
 	if r.State(fmt.Sprintf("sev ok n=%d ow=%v ids=%d auths=%d basenil=%v", n, ow, len(ids), len(auths), base == nil)) {
@@ -292,7 +333,7 @@ func tdxJobs(r *mc.Run, ctx context.Context, jobs *[]func()) {
 							}
 							if err != nil {
 								if len(want) > 0 && (base.GetTdQuoteBodyPolicy().GetAnyMrTd() == nil || ow) {
-									viol("plain-derivation-fails", "derivation for a listed RAM size fails: "+err.Error())
+									r.Outcome("plain-derivation-refused") // a failing derivation is always allowed; counted only
 								}
 								r.Outcome("error")
 								return "error"
@@ -300,11 +341,14 @@ func tdxJobs(r *mc.Run, ctx context.Context, jobs *[]func()) {
 							if base != nil && got == base {
 								viol("result-aliases-base", "the returned policy is the caller's base object")
 							}
-							if !ow && base.GetTdQuoteBodyPolicy().GetAnyMrTd() != nil {
+							baseList := base.GetTdQuoteBodyPolicy().GetAnyMrTd()
+							gotList := got.GetTdQuoteBodyPolicy().GetAnyMrTd()
+							keptBase := baseList != nil && eqKeys(gotList, baseList)
+							if !ow && baseList != nil && !keptBase {
 								viol("allow-list-overwritten", "an existing MRTD allow-list was replaced without overwrite")
 							}
-							if !eqKeys(got.GetTdQuoteBodyPolicy().GetAnyMrTd(), want) || len(want) == 0 {
-								viol("allow-list-not-endorsed", "the MRTD allow-list is not exactly the endorsement's rows for the RAM size")
+							if !keptBase && (!eqKeys(gotList, want) || len(want) == 0) {
+								viol("allow-list-not-endorsed", "the MRTD allow-list is neither the base's nor exactly the endorsement's rows for the RAM size")
 							}
 							strip := func(p *tcpb.Policy) *tcpb.Policy {
 								c := &tcpb.Policy{}
@@ -319,6 +363,12 @@ func tdxJobs(r *mc.Run, ctx context.Context, jobs *[]func()) {
 							}
 							if !proto.Equal(strip(got), strip(base)) {
 								viol("unrelated-field-changed", "a base field unrelated to the endorsement differs in the result")
+							}
+							if base != nil {
+								scribble(got.ProtoReflect())
+								if !proto.Equal(base, snapshot) {
+									viol("result-shares-memory-with-base", "writing into the returned policy changed the caller's base policy")
+								}
 							}
 							r.Nontrivial(id)
 							r.Outcome("ok")
